@@ -318,6 +318,7 @@ def ob_analyzer_history(W, seq, order, iscsd, backend):
         G, win_stub = C05._sym_setup(rec, "kaiser")
         a = C05._mk(W, G, N, order, iscsd, backend, "kaiser", win_stub, 2.5, fs, x1, x2)
         a.config["scheduler_func"] = mkplan
+        a._cfg_at_start = dict(a.config)
         outs = []
         for op in ops:
             n0 = len(rec.calls)
@@ -343,8 +344,8 @@ def ob_analyzer_history(W, seq, order, iscsd, backend):
             W.goal(tag + "/same kernel calls as on a fresh analyzer", len(calls) == len(calls0) and all(_same_call(c, c0) for c, c0 in zip(calls, calls0)))
             W.goal(tag + "/same omega", W.And(*[W.eq(c["args"][-1 if c["fam"] != "poly" else -2], c0["args"][-1 if c0["fam"] != "poly" else -2]) for c, c0 in zip(calls, calls0)]) if calls else True)
     W.goal("record untouched", all(a.x1[i] is x1[i] for i in range(N)) and (not iscsd or all(a.x2[i] is x2[i] for i in range(N))))
-    fresh_cfg = run([])[0].config
-    changed = [k for k in fresh_cfg if k not in ("scheduler_func", "win_func") and not _cfg_same(fresh_cfg[k], a.config.get(k))]
+    fresh_cfg = a._cfg_at_start          # the configuration the analyzer had before the first call
+    changed = [k for k in set(fresh_cfg) | set(a.config) if not _cfg_same(fresh_cfg.get(k), a.config.get(k))]
     W.goal("configuration unchanged", not changed, changed=changed)
     W.goal("scalar fields unchanged", a.nx == N and a.iscsd == iscsd and a.fs is fs)
 
